@@ -101,45 +101,48 @@ Inductive loopres :=
 | LOk (olds news : list kind) (cs : bset) (tl : list kind)
 | LFatal (f : fatal).
 
-(* the for loop of lines 180-217 over kinds[i..oldnr); [tl] are the slots from
-   index newnr on; [cs] is the (shrinking) cpuset argument *)
+(* one iteration of the for loop of lines 180-213 on kinds[i] = k: the
+   updated kinds[i], the kinds appended at kinds[newnr] (none or one), the
+   shrunk cpuset and the slots from the new newnr on *)
+Inductive stepres :=
+| SOk (k' : kind) (news : list kind) (cs' : bset) (tl' : list kind)
+| SFatal (f : fatal).
+
+Definition reg_step (flags : N) (forced : Z) (infos : option (list info))
+           (k : kind) (cs : bset) (tl : list kind) : stepres :=
+  match compare_inclusion cs (k_cpuset k) with
+  | B_INTERSECTS | B_INCLUDED =>
+    match tl with
+    | [] => SFatal F_OOB
+    | slot :: tl' =>
+      if k_arr slot then SFatal F_STALE
+      else
+        let nc := bs_inter cs (k_cpuset k) in
+        let nk := set_infos (K nc UNKNOWN forced (k_rank slot) (k_infos slot) false)
+                    (add_infos_opt (add_infos (k_infos slot) (k_infos k)) infos) in
+        SOk (set_cpuset k (bs_diff (k_cpuset k) nc)) [nk] (bs_diff cs nc) tl'
+    end
+  | B_CONTAINS | B_EQUAL =>
+    let k1 := set_infos k (add_infos_opt (k_infos k) infos) in
+    let k' := if negb (N.land flags OVERWRITE =? 0)%N || (k_forced k =? UNKNOWN)
+              then set_forced k1 forced else k1 in
+    SOk k' [] (bs_diff cs (k_cpuset k)) tl
+  | B_DIFFERENT => SOk k [] cs tl
+  end.
+
+(* the loop over kinds[i..oldnr) with its "break when the cpuset got empty"
+   (lines 214-216); [tl] are the slots from index newnr on *)
 Fixpoint reg_loop (flags : N) (forced : Z) (infos : option (list info))
          (olds : list kind) (cs : bset) (tl : list kind) : loopres :=
   match olds with
   | [] => LOk [] [] cs tl
   | k :: rest =>
-    match compare_inclusion cs (k_cpuset k) with
-    | B_INTERSECTS | B_INCLUDED =>
-      match tl with
-      | [] => LFatal F_OOB
-      | slot :: tl' =>
-        if k_arr slot then LFatal F_STALE
-        else
-          let nc := bs_inter cs (k_cpuset k) in
-          let nk := set_infos (K nc UNKNOWN forced (k_rank slot) (k_infos slot) false)
-                      (add_infos_opt (add_infos (k_infos slot) (k_infos k)) infos) in
-          let k' := set_cpuset k (bs_diff (k_cpuset k) nc) in
-          let cs' := bs_diff cs nc in
-          if bs_is_empty cs' then LOk (k' :: rest) [nk] cs' tl'
-          else match reg_loop flags forced infos rest cs' tl' with
-               | LOk r n c t => LOk (k' :: r) (nk :: n) c t
-               | LFatal f => LFatal f
-               end
-      end
-    | B_CONTAINS | B_EQUAL =>
-      let k1 := set_infos k (add_infos_opt (k_infos k) infos) in
-      let k' := if negb (N.land flags OVERWRITE =? 0)%N || (k_forced k =? UNKNOWN)
-                then set_forced k1 forced else k1 in
-      let cs' := bs_diff cs (k_cpuset k) in
-      if bs_is_empty cs' then LOk (k' :: rest) [] cs' tl
-      else match reg_loop flags forced infos rest cs' tl with
-           | LOk r n c t => LOk (k' :: r) n c t
-           | LFatal f => LFatal f
-           end
-    | B_DIFFERENT =>
-      if bs_is_empty cs then LOk (k :: rest) [] cs tl
-      else match reg_loop flags forced infos rest cs tl with
-           | LOk r n c t => LOk (k :: r) n c t
+    match reg_step flags forced infos k cs tl with
+    | SFatal f => LFatal f
+    | SOk k' n cs' tl' =>
+      if bs_is_empty cs' then LOk (k' :: rest) n cs' tl'
+      else match reg_loop flags forced infos rest cs' tl' with
+           | LOk r n2 c t => LOk (k' :: r) (n ++ n2) c t
            | LFatal f => LFatal f
            end
     end
